@@ -64,11 +64,15 @@ wide:
 	}
 }
 
+// stringAtOutOfRange is returned by stringAt for an index outside the string; it
+// is not a code unit, so it cannot be confused with one (U+FFFD is a valid character).
+const stringAtOutOfRange rune = -1
+
 func stringAt(str stringObjecter, index int) rune {
 	if 0 <= index && index < str.Length() {
 		return str.At(index)
 	}
-	return utf8.RuneError
+	return stringAtOutOfRange
 }
 
 func (rt *runtime) newStringObject(value Value) *object {
@@ -106,7 +110,7 @@ func stringGetOwnProperty(obj *object, name string) *property {
 	}
 	// TODO Test a string of length >= +int32 + 1?
 	if index := stringToArrayIndex(name); index >= 0 {
-		if chr := stringAt(obj.stringValue(), int(index)); chr != utf8.RuneError {
+		if chr := stringAt(obj.stringValue(), int(index)); chr != stringAtOutOfRange {
 			return &property{stringValue(string(chr)), 0}
 		}
 	}
